@@ -772,3 +772,11 @@ func keyMentions(names ...string) func(o *Obligation) bool {
 		return false
 	}
 }
+
+// derefType: the element type of a pointer type, or the type itself.
+func derefType(t types.Type) types.Type {
+	if p, ok := t.Underlying().(*types.Pointer); ok {
+		return p.Elem()
+	}
+	return t
+}
